@@ -217,6 +217,12 @@ pub fn cases(tier: &str) -> (Vec<Case>, serde_json::Value) {
             }
         }
     }
+    // double en passant with one of the two captures discovering a check, > 20 legal moves (move
+    // ordering sees two en-passant captures of different rank among checks, captures and quiet moves)
+    let dep = double_en_passant(thorough);
+    for p in dep {
+        cases.push(Case { pos: p, depth: 1, pool: 0, class: "double-en-passant", registered: 0, history: vec![], successors_seen_twice: false });
+    }
     // positions that are drawn on move count or by repetition but still have legal moves
     let mut drawn_cases = 0;
     for name in ["startpos", "kiwipete", "krk", "kpk", "castle-base-w", "ep-legal-both"] {
@@ -348,6 +354,7 @@ pub fn run(a: &Args) -> i32 {
     rep.rule = "state = (position, depth, pool size); each is one call of the real alpha_beta_search with a brand-new context and generator on a board built for the position; the answer is compared with the model's legal-move set and the declared errors; full snapshot of the caller's board before/after".into();
     rep.assumptions = vec!["generators created during these runs use a reduced LRU capacity (hook); answers of a correct cache do not depend on capacity".into(), "a call is considered hung after 600 s".into()];
     rep.mandatory = vec!["outcome_move".into(), "outcome_depth-too-low".into(), "class_checkmated".into(), "class_stalemated".into(), "class_single-legal-move".into(), "class_half-move-clock-near-or-past-100".into(), "class_position-registered-up-to-three-times".into(), "class_game-with-reused-context".into(), "class_all-successors-already-seen-twice".into()];
+    rep.mandatory.push("class_double-en-passant".into());
     rep.finish(&sink)
 }
 
